@@ -138,15 +138,15 @@ Section FieldFacts.
     (* a projective point: on the curve and not (0,0,0) *)
     Definition valid (P : F * F * F) : Prop := proj_on P /\ P <> (0, 0, 0).
 
-    Definition w_add (P Q : F * F * F) : F * F * F :=
+    Definition proj_add (P Q : F * F * F) : F * F * F :=
       let '(X1, Y1, Z1) := P in let '(X2, Y2, Z2) := Q in W_Add K a b X1 Y1 Z1 X2 Y2 Z2.
-    Definition w_double (P : F * F * F) : F * F * F :=
+    Definition proj_double (P : F * F * F) : F * F * F :=
       let '(X1, Y1, Z1) := P in W_Double K a b X1 Y1 Z1.
-    Definition w_neg (P : F * F * F) : F * F * F :=
+    Definition proj_neg (P : F * F * F) : F * F * F :=
       let '(X1, Y1, Z1) := P in W_Neg K X1 Y1 Z1.
-    Definition w_sub (P Q : F * F * F) : F * F * F :=
+    Definition proj_sub (P Q : F * F * F) : F * F * F :=
       let '(X1, Y1, Z1) := P in let '(X2, Y2, Z2) := Q in W_Sub K a b X1 Y1 Z1 X2 Y2 Z2.
-    Definition w_equal (P Q : F * F * F) : bool :=
+    Definition proj_equal (P Q : F * F * F) : bool :=
       let '(X1, Y1, Z1) := P in let '(X2, Y2, Z2) := Q in W_Equal K X2 Y2 Z2 X1 Y1 Z1.
 
     (* ToAffine as the code does it (ok, x, y) turned into the model's option *)
@@ -160,14 +160,14 @@ Section FieldFacts.
     Proof. intros. unfold w_to_affine. cbv [W_ToAffine]. destruct (fis0 K Z); reflexivity. Qed.
 
     (* ---- the curve equation is preserved ------------------------------------------- *)
-    Lemma add_preserves_curve : forall P Q, proj_on P -> proj_on Q -> proj_on (w_add P Q).
+    Lemma add_preserves_curve : forall P Q, proj_on P -> proj_on Q -> proj_on (proj_add P Q).
     Proof.
-      intros [[X1 Y1] Z1] [[X2 Y2] Z2]. unfold proj_on, w_add. cbv [W_Add]. intros H1 H2. nsatzT.
+      intros [[X1 Y1] Z1] [[X2 Y2] Z2]. unfold proj_on, proj_add. cbv [W_Add]. intros H1 H2. nsatzT.
     Qed.
 
-    Lemma dbl_preserves_curve : forall P, proj_on P -> proj_on (w_double P).
+    Lemma dbl_preserves_curve : forall P, proj_on P -> proj_on (proj_double P).
     Proof.
-      intros [[X1 Y1] Z1]. unfold proj_on, w_double. cbv [W_Double]. intros H1. nsatzT.
+      intros [[X1 Y1] Z1]. unfold proj_on, proj_double. cbv [W_Double]. intros H1. nsatzT.
     Qed.
 
     (* ---- homogeneity: the programs are bihomogeneous of degree (2,2) / 4 ---------------- *)
@@ -227,14 +227,14 @@ Section FieldFacts.
       Qed.
     End CharNot23.
 
-    Lemma neg_agrees : forall P, w_to_affine (w_neg P) = waff_neg K (w_to_affine P).
+    Lemma neg_agrees : forall P, w_to_affine (proj_neg P) = waff_neg K (w_to_affine P).
     Proof.
-      intros [[X Y] Z]. unfold w_neg. cbv [W_Neg]. rewrite !w_to_affine_eq.
+      intros [[X Y] Z]. unfold proj_neg. cbv [W_Neg]. rewrite !w_to_affine_eq.
       destruct (fis0 K Z); [reflexivity|]. cbn [waff_neg]. f_equal. f_equal. ring.
     Qed.
 
-    Lemma neg_preserves_curve : forall P, proj_on P -> proj_on (w_neg P).
-    Proof. intros [[X Y] Z]. unfold proj_on, w_neg. cbv [W_Neg]. intro H. nsatzT. Qed.
+    Lemma neg_preserves_curve : forall P, proj_on P -> proj_on (proj_neg P).
+    Proof. intros [[X Y] Z]. unfold proj_on, proj_neg. cbv [W_Neg]. intro H. nsatzT. Qed.
 
     (* ---- identity operands: the program scales the other operand by Y1^2*Y2 ------------------- *)
     Lemma add_identity_left : forall Y1 X2 Y2 Z2 : F,
@@ -401,17 +401,17 @@ Section FieldFacts.
       Proof. intros. f_equal; try f_equal; field; assumption. Qed.
 
       Theorem w_add_correct : no_two_torsion -> forall P Q, valid P -> valid Q ->
-        valid (w_add P Q) /\
-        w_to_affine (w_add P Q) = waff_add K a (w_to_affine P) (w_to_affine Q).
+        valid (proj_add P Q) /\
+        w_to_affine (proj_add P Q) = waff_add K a (w_to_affine P) (w_to_affine Q).
       Proof.
         intros H2 [[X1 Y1] Z1] [[X2 Y2] Z2] V1 V2.
-        assert (Hon : proj_on (w_add (X1, Y1, Z1) (X2, Y2, Z2))).
+        assert (Hon : proj_on (proj_add (X1, Y1, Z1) (X2, Y2, Z2))).
         { apply add_preserves_curve; [apply V1 | apply V2]. }
         destruct (fis0 K Z1) eqn:E1; destruct (fis0 K Z2) eqn:E2.
         - (* both at infinity *)
           apply fis0_eq in E1, E2. subst Z1 Z2.
           destruct (valid_inf _ _ V1) as [HX1 HY1]. destruct (valid_inf _ _ V2) as [HX2 HY2]. subst X1 X2.
-          unfold valid. unfold w_add in *. rewrite add_identity_left in *. split; [split; [exact Hon|]|].
+          unfold valid. unfold proj_add in *. rewrite add_identity_left in *. split; [split; [exact Hon|]|].
           + apply scale_nonzero; [repeat apply nz_mul; assumption|].
             intro H. injection H as H. contradiction.
           + rewrite to_affine_scale by (repeat apply nz_mul; assumption).
@@ -422,7 +422,7 @@ Section FieldFacts.
           destruct (valid_inf _ _ V1) as [HX1 HY1]. subst X1.
           assert (HY2 : Y2 <> 0).
           { intro HY2. apply (y_nonzero H2 _ _ (valid_aff _ _ _ E2 (proj1 V2))). rewrite HY2. ring. }
-          unfold valid. unfold w_add in *. rewrite add_identity_left in *. split; [split; [exact Hon|]|].
+          unfold valid. unfold proj_add in *. rewrite add_identity_left in *. split; [split; [exact Hon|]|].
           + apply scale_nonzero; [repeat apply nz_mul; assumption | apply V2].
           + rewrite to_affine_scale by (repeat apply nz_mul; assumption).
             rewrite (w_to_affine_eq 0 Y1 0). replace (fis0 K 0) with true; [reflexivity|].
@@ -432,7 +432,7 @@ Section FieldFacts.
           destruct (valid_inf _ _ V2) as [HX2 HY2]. subst X2.
           assert (HY1 : Y1 <> 0).
           { intro HY1. apply (y_nonzero H2 _ _ (valid_aff _ _ _ E1 (proj1 V1))). rewrite HY1. ring. }
-          unfold valid. unfold w_add in *. rewrite add_identity_right in *. split; [split; [exact Hon|]|].
+          unfold valid. unfold proj_add in *. rewrite add_identity_right in *. split; [split; [exact Hon|]|].
           + apply scale_nonzero; [repeat apply nz_mul; assumption | apply V1].
           + rewrite to_affine_scale by (repeat apply nz_mul; assumption).
             rewrite (w_to_affine_eq 0 Y2 0). replace (fis0 K 0) with true.
@@ -444,7 +444,7 @@ Section FieldFacts.
           pose proof (valid_aff _ _ _ E2 (proj1 V2)) as A2.
           destruct (add_affine_correct H2 _ _ _ _ A1 A2) as [Hnz Haff].
           assert (Hc : (Z1 * Z2) * (Z1 * Z2) <> 0) by (repeat apply nz_mul; assumption).
-          unfold valid. unfold w_add in *.
+          unfold valid. unfold proj_add in *.
           rewrite (w_to_affine_eq X1 Y1 Z1), (w_to_affine_eq X2 Y2 Z2).
           apply fis0_neq in E1, E2. rewrite E1, E2. apply fis0_neq in E1, E2.
           rewrite <- Haff.
@@ -461,13 +461,13 @@ Section FieldFacts.
       Qed.
 
       Theorem w_double_correct : no_two_torsion -> forall P, valid P ->
-        valid (w_double P) /\ w_to_affine (w_double P) = waff_double K a (w_to_affine P).
+        valid (proj_double P) /\ w_to_affine (proj_double P) = waff_double K a (w_to_affine P).
       Proof.
         intros H2 [[X1 Y1] Z1] V1.
-        assert (Hon : proj_on (w_double (X1, Y1, Z1))) by (apply dbl_preserves_curve, V1).
+        assert (Hon : proj_on (proj_double (X1, Y1, Z1))) by (apply dbl_preserves_curve, V1).
         destruct (fis0 K Z1) eqn:E1.
         - apply fis0_eq in E1. subst Z1. destruct (valid_inf _ _ V1) as [HX1 HY1]. subst X1.
-          unfold valid, w_double in *. rewrite dbl_identity in *. split; [split; [exact Hon|]|].
+          unfold valid, proj_double in *. rewrite dbl_identity in *. split; [split; [exact Hon|]|].
           + intro H. injection H as H. revert H. repeat apply nz_mul; assumption.
           + rewrite !w_to_affine_eq. replace (fis0 K 0) with true; [reflexivity|].
             symmetry. apply fis0_eq. reflexivity.
@@ -477,7 +477,7 @@ Section FieldFacts.
           assert (Hc : (Z1 * Z1) * (Z1 * Z1) <> 0) by (repeat apply nz_mul; assumption).
           assert (HYY : Y1 + Y1 <> 0).
           { intro H. apply Hyy. transitivity ((Y1 + Y1) * finv K Z1). ring. rewrite H. ring. }
-          unfold valid, w_double in *.
+          unfold valid, proj_double in *.
           assert (EQ : W_Double K a b X1 Y1 Z1 =
                        W_Double K a b (X1 * finv K Z1 * Z1) (Y1 * finv K Z1 * Z1) Z1).
           { f_equal; field; assumption. }
@@ -496,17 +496,17 @@ Section FieldFacts.
       Qed.
       (* Sub = Add after Neg (as regenerated: W_Sub calls W_Neg then W_Add) *)
       Theorem w_sub_correct : no_two_torsion -> forall P Q, valid P -> valid Q ->
-        valid (w_sub P Q) /\
-        w_to_affine (w_sub P Q) = waff_sub K a (w_to_affine P) (w_to_affine Q).
+        valid (proj_sub P Q) /\
+        w_to_affine (proj_sub P Q) = waff_sub K a (w_to_affine P) (w_to_affine Q).
       Proof.
         intros H2 P [[X2 Y2] Z2] V1 V2.
-        assert (VN : valid (w_neg (X2, Y2, Z2))).
+        assert (VN : valid (proj_neg (X2, Y2, Z2))).
         { split.
           - apply neg_preserves_curve. apply V2.
-          - unfold w_neg. cbv [W_Neg]. intro H. injection H as HX HY HZ. apply (proj2 V2).
+          - unfold proj_neg. cbv [W_Neg]. intro H. injection H as HX HY HZ. apply (proj2 V2).
             assert (Y2 = 0) by (transitivity (- - Y2); [ring | rewrite HY; ring]).
             subst. reflexivity. }
-        replace (w_sub P (X2, Y2, Z2)) with (w_add P (w_neg (X2, Y2, Z2))).
+        replace (proj_sub P (X2, Y2, Z2)) with (proj_add P (proj_neg (X2, Y2, Z2))).
         - destruct (w_add_correct H2 P _ V1 VN) as [HV HA]. split; [exact HV|].
           rewrite HA, neg_agrees. reflexivity.
         - destruct P as [[X1 Y1] Z1]. reflexivity.
@@ -542,9 +542,9 @@ Section FieldFacts.
     (* Equal compares the cross products; on valid projective points this is equality of the
        affine points (and of "being the point at infinity") *)
     Theorem equal_iff_same_affine : forall P Q, valid P -> valid Q ->
-      (w_equal P Q = true <-> w_to_affine P = w_to_affine Q).
+      (proj_equal P Q = true <-> w_to_affine P = w_to_affine Q).
     Proof.
-      intros [[X1 Y1] Z1] [[X2 Y2] Z2] V1 V2. unfold w_equal. cbv [W_Equal].
+      intros [[X1 Y1] Z1] [[X2 Y2] Z2] V1 V2. unfold proj_equal. cbv [W_Equal].
       rewrite !w_to_affine_eq. rewrite andb_true_iff, !feqb_eq.
       destruct (fis0 K Z1) eqn:E1; destruct (fis0 K Z2) eqn:E2.
       - apply fis0_eq in E1, E2. subst. split; [reflexivity|]. intros _. split; ring.
